@@ -95,6 +95,21 @@ def gen_hazard_case(cid, rnd, reps=12):
     return {"id": cid, "base": base, "threads": threads, "tags": ["hazard"]}
 
 
+def gen_fresh_names_case(cid, rnd, reps=8):
+    """several files that all define the SAME names and all switch, round after round, between
+    two disjoint sets of names: in every round the new set is absent from the per-name maps and
+    is defined for the first time by all threads at once (seed S27: get_mut-then-insert)"""
+    root = "/vy%d" % (cid % 3)
+    nfiles = rnd.choice([2, 3, 3])
+    nnames = rnd.choice([6, 10])
+
+    def text(prefix, k):
+        return "import pytest\n\n" + "".join("@pytest.fixture\ndef %s_%d():\n    return %d\n\n" % (prefix, j, k) for j in range(nnames))
+    files = [root + "/pkg_%d/conftest.py" % k for k in range(nfiles)]
+    threads = [[{"op": "analyze", "path": p, "text": text("fa" if i % 2 == 0 else "fb", k)} for i in range(reps)] for k, p in enumerate(files)]
+    return {"id": cid, "base": [], "threads": threads, "tags": ["fresh-names"]}
+
+
 def run_conc(h4, cases, seeds, tmp):
     """each case under every chaos seed, plus one sequential reference"""
     ref_cases = [{"id": c["id"], "ops": c["base"] + [o for t in c["threads"] for o in t] + [{"op": "dump"}]} for c in cases]
@@ -197,6 +212,7 @@ def run(r):
         nconf, conf_bad = run_conformance(h4, rnd, 6 if quick else 80, tmp, 14)
         cases = [gen_conc_case(i, rnd) for i in range(24 if quick else 300)]
         cases += [gen_hazard_case(1000 + i, rnd) for i in range(12 if quick else 100)]
+        cases += [gen_fresh_names_case(2000 + i, rnd) for i in range(8 if quick else 60)]
         seeds = [r.seed * 100 + k for k in range(6 if quick else 30)]
         results = run_conc(h4, cases, seeds, tmp)
     finally:
